@@ -211,6 +211,9 @@ def gen_config(ch):
     cfg["ack_delay_us"] = ch.pick([0, 2000, 50000], "ackdelay")
     cfg["long_payloads"] = bool(ch.chance(1, 24, "longrun"))
     lp = cfg["long_payloads"]
+    # marathon: several hundred tiny packets in one session (counters that
+    # wrap, caches that evict, buffers that are reused)
+    cfg["marathon"] = bool(ch.chance(1, 60, "marathon"))
     ncallers = 1 + ch.weighted([4, 3, 1], "ncallers")
     cfg["callers"] = []
     for _ in range(ncallers):
@@ -224,6 +227,20 @@ def gen_config(ch):
     npeer = ch.weighted([2, 3, 3, 2, 1], "npeer")
     cfg["peer_packets"] = [(ch.pick([0, 500, 30000, 400000, 1500000], "pt"),
                             gen_payload(ch, long_ok=lp)) for _ in range(npeer)]
+    if cfg["marathon"]:
+        n = 258 + ch.draw(40, "marathonlen")
+        small = ["", "0", "OK", "a1", "}", "$", "g", "m 0,1"]
+        cfg["callers"] = [[(ch.pick(small, "mp"), 3, 0) for _ in range(n)]]
+        cfg["peer_packets"] = [(k * 2000, ch.pick(small, "mq"))
+                               for k in range(n)]
+        cfg["enabled"] = [k for k in cfg["enabled"]
+                          if k in ("spurious_nack", "noise",
+                                   "p2c_corrupt_body", "c2p_corrupt_body")]
+    if lp and ch.chance(1, 6, "hugepayload"):
+        # beyond any plausible transmit buffer
+        cfg["callers"][0].append(
+            ("".join(ch.pick(PLAIN, "hugech") for _ in range(64)) * 70,
+             3, 0))
     # topology: 0 = RspHandler against the reference peer (A2),
     #           1 = GdbDebugDriver on top of it against a stub server (B)
     cfg["topology"] = ch.weighted([3, 1], "topology")
@@ -235,6 +252,7 @@ def gen_config(ch):
         cfg["enabled"] = [k for k in cfg["enabled"] if k in BENIGN_FOR_DRIVER]
         cfg["peer_packets"] = []  # well behaved stub: only replies
         cfg["slow_replies"] = bool(ch.chance(1, 3, "slowreplies"))
+        cfg["upper_hex"] = bool(ch.chance(1, 4, "upperhex"))
         # a halted stub that announces itself with a stop reply as soon as
         # the connection is up
         cfg["greeting"] = ch.pick([None, None, None, "S05", "T0500:44332211;"],
@@ -568,7 +586,9 @@ class World:
     def __init__(self, ch, cfg):
         self.ch = ch
         self.cfg = cfg
-        self.sim = Sim(ch, step_cap=20000, time_cap_us=600_000_000,
+        self.sim = Sim(ch, step_cap=90000 if cfg.get("marathon") or
+                       cfg.get("long_payloads") else 20000,
+                       time_cap_us=600_000_000,
                        horizon_us=cfg["horizon_us"])
         self.sim.net = self
         self.sim.weighted = bool(cfg["weighted_sched"])
@@ -588,6 +608,7 @@ class World:
         self.replies_taken = []
         self.pending_stops = []
         self.stub_writes = []
+        self.stub_mem = {}
         self.leftover = []
         self.leftover_before_probe = None
         self.forced_stop = 0
@@ -684,9 +705,19 @@ class World:
         if cmd.startswith("m"):
             a, n = cmd[1:].strip().split(",")
             a, n = int(a, 16), int(n, 16)
-            peer.enqueue(bytes((a + i) & 0xFF for i in range(n)).hex()
-                         .encode())
-        elif cmd.startswith(("M", "Z", "z", "P")):
+            text = bytes(stub_mem_read(self.stub_mem, a, n)).hex()
+            if self.cfg.get("upper_hex"):
+                text = text.upper()
+            peer.enqueue(text.encode())
+        elif cmd.startswith("M"):
+            # M addr,len:hexdata - the stub's memory is stateful
+            head, data = cmd[1:].split(":", 1)
+            a = int(head.split(",")[0].strip(), 16)
+            for i, b in enumerate(bytes.fromhex(data)):
+                self.stub_mem[a + i] = b
+            self.stub_writes.append(cmd)
+            peer.enqueue(b"OK")
+        elif cmd.startswith(("Z", "z", "P")):
             self.stub_writes.append(cmd)
             peer.enqueue(b"OK")
         elif cmd == "g":
@@ -1060,10 +1091,14 @@ def judge(w, verdict):
     return viol, probes
 
 
-def expected_result(op):
+def stub_mem_read(mem, a, n):
+    return [mem.get(a + i, (a + i) & 0xFF) for i in range(n)]
+
+
+def expected_result(op, mem=None):
     k = op[0]
     if k == "read_mem":
-        return bytes((op[1] + i) & 0xFF for i in range(op[2])).hex()
+        return bytes(stub_mem_read(mem or {}, op[1], op[2])).hex()
     if k == "get_registers":
         return [0x11223344, 0x55667788, 0xAABBCC00]
     if k == "get_pc":
@@ -1109,8 +1144,13 @@ def judge_driver(w, complete, closed, clean, died, got, probe):
             problems.append(f"operations failed: {bad!r}")
         if single:
             probe("driver_single_caller")
+            mem = {}
             for c in w.bcalls:
-                exp = expected_result(c["op"])
+                # single caller: the reference memory follows program order
+                exp = expected_result(c["op"], mem)
+                if c["op"][0] == "write_mem" and not c["exc"]:
+                    for i, b in enumerate(c["op"][2]):
+                        mem[c["op"][1] + i] = b
                 if exp is not None and c["result"] != exp and not c["exc"]:
                     problems.append(f"{c['op']!r} returned {c['result']!r}, "
                                     f"stub answered {exp!r}")
@@ -1128,7 +1168,7 @@ def judge_driver(w, complete, closed, clean, died, got, probe):
         last = w.bcalls[-1] if w.bcalls else None
         if last is not None and last["phase2"]:
             probe("driver_recovery_checked")
-            if last["result"] != expected_result(last["op"]) and \
+            if last["result"] != expected_result(last["op"], w.stub_mem) and \
                     len(w.cfg["bops"]) == 1 and not w.leftover_before_probe:
                 viol.append(("B3-driver-recovery",
                              f"command after faults stopped: {last['op']!r} "
